@@ -15,7 +15,7 @@ import z3
 from . import vals as VV
 from .repo import ClassInfo, FuncInfo, ModuleInfo, Repo
 from .state import Fork, Raised, State, Unsupported
-from .vals import (ANY, BOOL, INT, MAT, NONE, PY, REAL, STR, VEC, I, R, T, TDict, TList,
+from .vals import (join_ty, ANY, BOOL, INT, MAT, NONE, PY, REAL, STR, VEC, I, R, T, TDict, TList,
                    TOpt, TRef, TSet, TTuple, V, Val, as_atom, as_bool_raw, as_int, as_real,
                    as_ref, fresh_int, fresh_name, fresh_val, is_none, parse_type,
                    type_invariant, uf, v_any, v_bool, v_int, v_none, v_py, v_real, v_ref,
@@ -66,6 +66,7 @@ class Ctx:
         self.obligs: list[Oblig] = []
         self.notes: list[str] = []
         self.check_safe = True
+        self.nla_uf = False
         self.fn_label = ''
         self.oblig_seq: dict[str, int] = {}
         self.specs: dict[str, Callable] = {}
@@ -593,6 +594,7 @@ class Executor:
         from .state import occurs
         S = set(seed_fields)
         self.loop_frame = {}
+        self.loop_local_ty = {}
         for _ in range(6):
             trial = st.copy()
             tconsts = []
@@ -615,6 +617,11 @@ class Executor:
             tconsts = self.trial_consts
             written = set()
             frames: dict[str, list | None] = {}
+            for o in outs:
+                if o.kind in ('normal', 'continue'):
+                    for nme, lv in o.st.locals.items():
+                        if nme in st.locals:
+                            self.loop_local_ty[nme] = join_ty(self.loop_local_ty.get(nme, st.locals[nme].ty), lv.ty)
             for o in outs:
                 new_fresh = o.st.fresh - st.fresh
                 for f, arr in o.st.heap.items():
@@ -702,27 +709,29 @@ class Executor:
         hs = st.copy()
         heap_mod = set(mod_fields) | extra_fields
         alloc_only = {}
+        def run_body(trial):
+            for name in mod_names:
+                if name in trial.locals:
+                    trial.locals[name] = V(fresh_val(name), trial.locals[name].ty)
+                    self.trial_consts.append(trial.locals[name].t)
+            kk = fresh_int('k')
+            self.trial_consts.append(kk)
+            trial.assume(z3.And(kk >= 0, kk < n))
+            trial.mark_nonneg(kk)
+            self.assign(trial, node.target, view.get(trial, kk))
+            return self.exec_block(trial, node.body)
+        trial_mod = self.written_fields(st, run_body, heap_mod)
+        local_ty = dict(self.loop_local_ty)
         if inv is not None and inv.modifies_exact:
             heap_mod = set(inv.modifies)
         else:
-            def run_body(trial):
-                for name in mod_names:
-                    if name in trial.locals:
-                        trial.locals[name] = V(fresh_val(name), trial.locals[name].ty)
-                        self.trial_consts.append(trial.locals[name].t)
-                kk = fresh_int('k')
-                self.trial_consts.append(kk)
-                trial.assume(z3.And(kk >= 0, kk < n))
-                trial.mark_nonneg(kk)
-                self.assign(trial, node.target, view.get(trial, kk))
-                return self.exec_block(trial, node.body)
-            heap_mod = self.written_fields(st, run_body, heap_mod)
+            heap_mod = trial_mod
             alloc_only = dict(self.loop_frame)
         self.havoc_fields(hs, st, heap_mod, alloc_only)
         for name in mod_names:
             if name in hs.locals:
                 old = hs.locals[name]
-                nv = V(fresh_val(name), old.ty)
+                nv = V(fresh_val(name), local_ty.get(name, old.ty))
                 hs.locals[name] = nv
                 hs.assume_type(nv)
         hs.alloc = fresh_int('alloc')
@@ -766,24 +775,26 @@ class Executor:
         hs = st.copy()
         heap_mod = set(mod_fields) | (set(inv.modifies) if inv is not None else set())
         alloc_only = {}
+        def run_body(trial):
+            for name in mod_names:
+                if name in trial.locals:
+                    trial.locals[name] = V(fresh_val(name), trial.locals[name].ty)
+                    self.trial_consts.append(trial.locals[name].t)
+            c_ = self.truth(trial, self.ev(trial, node.test))
+            trial.pc.append(c_)
+            return self.exec_block(trial, node.body)
+        trial_mod = self.written_fields(st, run_body, heap_mod)
+        local_ty = dict(self.loop_local_ty)
         if inv is not None and inv.modifies_exact:
             heap_mod = set(inv.modifies)
         else:
-            def run_body(trial):
-                for name in mod_names:
-                    if name in trial.locals:
-                        trial.locals[name] = V(fresh_val(name), trial.locals[name].ty)
-                        self.trial_consts.append(trial.locals[name].t)
-                c_ = self.truth(trial, self.ev(trial, node.test))
-                trial.pc.append(c_)
-                return self.exec_block(trial, node.body)
-            heap_mod = self.written_fields(st, run_body, heap_mod)
+            heap_mod = trial_mod
             alloc_only = dict(self.loop_frame)
         self.havoc_fields(hs, st, heap_mod, alloc_only)
         for name in mod_names:
             if name in hs.locals:
                 old = hs.locals[name]
-                nv = V(fresh_val(name), old.ty)
+                nv = V(fresh_val(name), local_ty.get(name, old.ty))
                 hs.locals[name] = nv
                 hs.assume_type(nv)
         hs.alloc = fresh_int('alloc')
@@ -897,24 +908,9 @@ class Executor:
                     return None
                 items.append(mv)
             return v_tuple(items)
-        tys = {v.ty for v in vs}
-        if len(tys) == 1:
-            ty = first.ty
-        else:
-            kinds = {v.kind for v in vs}
-            non_none = [v.ty for v in vs if v.kind != 'none']
-            if kinds <= {'int', 'real'}:
-                ty = REAL
-            elif 'none' in kinds and len(set(non_none)) == 1:
-                ty = TOpt(non_none[0])
-            elif kinds <= {'int', 'real', 'none'}:
-                ty = TOpt(REAL)
-            else:
-                base_ = set()
-                for t_ in tys:
-                    base_.add(t_.args[0] if t_.kind == 'opt' else t_)
-                base_.discard(NONE)
-                ty = TOpt(base_.pop()) if len(base_) == 1 else ANY
+        ty = vs[0].ty
+        for v in vs[1:]:
+            ty = join_ty(ty, v.ty)
         cur = vs[-1].t
         for v, c in zip(reversed(vs[:-1]), reversed(conds[:-1])):
             cur = v.t if v.t.eq(cur) else z3.If(c, v.t, cur)
@@ -1172,6 +1168,19 @@ class Executor:
                     res = {'Add': a + b, 'Sub': a - b, 'Mult': a * b}[opn]
                     return v_int(z3.simplify(res))
                 a, b = as_real(l), as_real(r)
+                if opn == 'Mult' and self.ctx.nla_uf:
+                    sa, sb = z3.simplify(a), z3.simplify(b)
+                    if not z3.is_rational_value(sa) and not z3.is_rational_value(sb):
+                        # A-NLA-UF: product of two symbolic reals as an uninterpreted commutative
+                        # function (congruence only; weaker than real multiplication, hence sound)
+                        f = uf('rmul', R, R, R)
+                        if not st.ghost.get('rmul_comm'):
+                            st.ghost['rmul_comm'] = True
+                            qa, qb = z3.Real('rm!a'), z3.Real('rm!b')
+                            st.pc.insert(0, z3.ForAll([qa, qb], f(qa, qb) == f(qb, qa), patterns=[f(qa, qb)]))
+                            st.pc.insert(0, z3.ForAll([qa], z3.And(f(qa, 0) == 0, f(0, qa) == 0), patterns=[f(qa, 0), f(0, qa)]))
+                            st.pc.insert(0, z3.ForAll([qa], z3.And(f(qa, 1) == qa, f(1, qa) == qa), patterns=[f(qa, 1), f(1, qa)]))
+                        return v_real(f(sa, sb))
                 res = {'Add': a + b, 'Sub': a - b, 'Mult': a * b}[opn]
                 return v_real(z3.simplify(res))
             if isinstance(op, ast.Div):
@@ -1490,7 +1499,12 @@ class Executor:
         return self.lib.comprehension(self, st, node, 'dict')
 
     def _e_GeneratorExp(self, st, node):
-        return self.lib.comprehension(self, st, node, 'list')
+        # a generator is an immutable temporary: no heap allocation
+        st.spec += 1
+        try:
+            return self.lib.comprehension(self, st, node, 'list')
+        finally:
+            st.spec -= 1
 
     def _e_Lambda(self, st, node):
         return v_py(('lambda', node, dict(st.locals), self.frame.module))
